@@ -569,3 +569,223 @@ func RouteC(p, q *T, kind, sub int) *T {
 	}
 	return r
 }
+
+// ---- arrays, array pointers, slice-to-array conversions ----
+
+func SliceOfArray(n int) []int {
+	var a [3]int
+	a[0] = n
+	return a[:0]
+}
+
+func SliceOfArrayPtr(p *[3]int) []int {
+	return p[:]
+}
+
+func SliceOfArrayPtrZero(p *[3]int) []int {
+	return p[0:0]
+}
+
+func SliceOfNewArrayPtr() []int {
+	p := new([3]int)
+	return p[1:]
+}
+
+func ToArrayPtr(s []int) *[2]int {
+	return (*[2]int)(s)
+}
+
+func ToArrayPtrZero(s []int) *[0]int {
+	return (*[0]int)(s)
+}
+
+func ToArrayThenBack(s []int) []int {
+	a := [1]int(s)
+	_ = a
+	return s
+}
+
+func ResliceNonZero(s []int) []int {
+	t := s[:1]
+	_ = t
+	return s
+}
+
+func ResliceZero(s []int) []int {
+	return s[0:0]
+}
+
+func ResliceVar(s []int, n int) []int {
+	return s[:n]
+}
+
+// ---- globals ----
+
+var gPtr *T
+var gNew = &T{}
+
+func LoadGlobal() *T { return gPtr }
+
+func LoadGlobalChecked() *T {
+	if gPtr == nil {
+		return &T{}
+	}
+	return gPtr
+}
+
+func LoadGlobalInit() *T { return gNew }
+
+func StoreThenLoadGlobal(p *T) *T {
+	gPtr = p
+	return gPtr
+}
+
+// ---- dereferences, stores, map updates, sends imply non-nil operands ----
+
+func DerefThenReturn(p *T) *T {
+	_ = p.V
+	return p
+}
+
+func StoreThenReturn(p *T) *T {
+	p.V = 1
+	return p
+}
+
+func IndexThenReturn(s []int) []int {
+	_ = s[0]
+	return s
+}
+
+func MapStoreThenReturn(m map[int]*T) map[int]*T {
+	m[1] = nil
+	return m
+}
+
+func MapReadThenReturn(m map[int]*T) map[int]*T {
+	_ = m[1]
+	return m
+}
+
+func LenThenReturn(s []int) []int {
+	if len(s) > 0 {
+		return s
+	}
+	return []int{1}
+}
+
+func CallThenReturn(f func() *T) func() *T {
+	_ = f()
+	return f
+}
+
+func DeferThenReturn(f func() *T) (r func() *T) {
+	defer func() { recover() }()
+	defer f()
+	return f
+}
+
+func MethodCallThenReturn(s Source) Source {
+	_ = s.Get()
+	return s
+}
+
+func TypeAssertThenReturn(x any) any {
+	_ = x.(*T)
+	return x
+}
+
+func TypeAssertOkThenReturn(x any) any {
+	_, ok := x.(*T)
+	_ = ok
+	return x
+}
+
+// ---- results of calls, multiple results ----
+
+func pair(p *T) (*T, *T) { return p, &T{} }
+
+func SecondOfPair(p *T) *T {
+	_, b := pair(p)
+	return b
+}
+
+func FirstOfPair(p *T) *T {
+	a, _ := pair(p)
+	return a
+}
+
+func ViaOrNew(p *T) *T { return OrNew(p) }
+
+func ViaNil() *T { return Nil() }
+
+func Recur(p *T, n int) *T {
+	if n <= 0 {
+		return p
+	}
+	return Recur(p.Next, n-1)
+}
+
+func RecurNew(n int) *T {
+	if n <= 0 {
+		return &T{}
+	}
+	return RecurNew(n - 1)
+}
+
+// ---- range loops, closures ----
+
+func LastOfRange(xs []int) *T {
+	var last *T
+	for _, x := range xs {
+		last = &T{V: x}
+	}
+	return last
+}
+
+func RangeOverNilMap(m map[int]*T) *T {
+	r := &T{}
+	for _, v := range m {
+		r = v
+	}
+	return r
+}
+
+func ClosureResult(p *T) *T {
+	f := func() *T { return p }
+	return f()
+}
+
+func ClosureWrites(p *T) *T {
+	r := &T{}
+	f := func() { r = p }
+	f()
+	return r
+}
+
+// ---- interfaces holding values ----
+
+func IfaceSwitch(x any) any {
+	switch v := x.(type) {
+	case *T:
+		return v
+	case nil:
+		return 0
+	default:
+		return v
+	}
+}
+
+func IfaceAssertField(x any) *T {
+	if t, ok := x.(*T); ok {
+		return t
+	}
+	return &T{}
+}
+
+func IfaceFromSource(s Source) any {
+	if s == nil {
+		return nil
+	}
+	return s.Get()
+}
